@@ -1,6 +1,6 @@
 \* witness: the code as it is must violate PinnedStays (clear() drops a pinned entry)
 CONSTANTS Threads = {t1, t2}  KA = {k1, k2}  KB = {}  Cap = 2  MaxCalls = 2  MaxHeld = 2  Fine = FALSE  InitMayFail = FALSE
-          BudgetPages = 3  Ballast = 30  ClearKeepsPinned = FALSE  ReleaseOnInitError = FALSE
+          BudgetPages = 3  Ballast = 30  ClearKeepsPinned = FALSE  ClearCountsUnderLock = FALSE  ReleaseOnInitError = FALSE
 CONSTANT Keys <- KeysAll  ShardOf <- ShardsOneTwo
 SYMMETRY Sym
 SPECIFICATION Spec
